@@ -22,9 +22,9 @@ ASSUMPTIONS = [
     "theorems are over an ordered field (exact arithmetic); rounding is not proved: measured every run against exact rationals with the documented tolerances",
     "model FitModel.fit_system tied to the C/C++ by comparison of per-dimension bases, box products, penalty matrices, the F and R arrays after the real slicemultiply, and the normal system captured at cholesky_solve, on this run's cases",
     "well-posedness (positive definite normal matrix) is decided exactly per generated case; ill-posed cases are outside the property and skipped",
-    "knot vectors with distinct knots and (about a fifth of the dimensions of order >= 1, since fix 33ef56f) with one run of 2..order+1 repeated knots, interior or clamped at an end, "
+    "knot vectors with distinct knots and (about a fifth of the dimensions of order >= 1, since fix 07dbb30) with one run of 2..order+1 repeated knots, interior or clamped at an end, "
     "with the penalty order lowered to order-multiplicity+1 where necessary (beyond that calc_penalty divides by zero: the penalised derivative has no B-spline expansion, not a well-posed problem); "
-    "abscissa conventions: right-continuous basis as in splineutil.c bspline()",
+    "abscissa conventions: the basis of splineutil.c bsplinebasis() since fix F30_1 = the evaluation properties' (right-continuous below knots[nknots-order-1], left-continuous from there upwards)",
 ]
 TRUSTED_EXTRA = [
     "CHOLMOD (cholmod_l_analyze/factorize/solve) as the solver oracle: hypothesis `solve_spec` of Section in Properties_C09.v",
@@ -100,7 +100,7 @@ def gen_dim(rng, maxspl, maxpts, want_poly):
     for i in range(nk):
         knots.append(t)
         t += step0 if style == "uniform" else rng.choice([0.25, 0.5, 0.75, 1.0, 1.25, 2.0, 3.5])
-    # repeated knots (routine since fix 33ef56f: splineutil.c's bspline() skips vanishing denominators): about a fifth of the
+    # repeated knots (routine since fix 07dbb30: splineutil.c's bspline() skips vanishing denominators): about a fifth of the
     # dimensions of order >= 1 get one run of m equal knots (interior or clamped at an end), 2 <= m <= order+1 (m = order+1: the
     # spline may jump there). All draws come from a forked stream so that the other cases of a seed stay what they were.
     mult = 1
@@ -129,13 +129,15 @@ def gen_dim(rng, maxspl, maxpts, want_poly):
     tries = 0
     while len(pts) < npts and tries < 50:
         tries += 1
-        cls = rng.choice(["full", "full", "full", "knot", "margin", "outside"]) if not want_poly else "full"
+        cls = rng.choice(["full", "full", "full", "knot", "margin", "outside", "upper"]) if not want_poly else "full"
         if cls == "full":
             x = rng.rint(int(math.ceil(lo * g)), int(math.floor(hi * g))) / g
             if not (lo <= x < hi):
                 continue
         elif cls == "knot":
             x = rng.choice(knots)
+        elif cls == "upper":      # exactly on a knot at or above knots[nsplines], the last knot included: where the basis is left-continuous
+            x = rng.choice(knots[nspl:] + [knots[-1]])
         elif cls == "margin":
             x = rng.rint(int(knots[0] * g), int(knots[-1] * g)) / g
         else:
@@ -169,27 +171,31 @@ def penalty_defined(d):
     forms no penalty term, because the check calls calc_penalty directly for every dimension (correspondence of the penalty matrix)."""
     return max_mult(d["knots"]) <= d["order"] - d["porder"] + 1
 
-def exact_bspline(kn, x, i, n):
-    """Cox-de Boor, right-continuous, a term with a vanishing denominator dropped (repeated knots)"""
+def exact_bspline(kn, x, i, n, left=False):
+    """Cox-de Boor, right-continuous or (left) left-continuous, a term with a vanishing denominator dropped (repeated knots)"""
     if n == 0:
+        if left:
+            return Fr(1) if kn[i] < x <= kn[i + 1] else Fr(0)
         return Fr(1) if kn[i] <= x < kn[i + 1] else Fr(0)
     r = Fr(0)
     d1 = kn[i + n] - kn[i]
     if d1 != 0:
-        b = exact_bspline(kn, x, i, n - 1)
+        b = exact_bspline(kn, x, i, n - 1, left)
         if b:
             r += (x - kn[i]) * b / d1
     d2 = kn[i + n + 1] - kn[i + 1]
     if d2 != 0:
-        b = exact_bspline(kn, x, i + 1, n - 1)
+        b = exact_bspline(kn, x, i + 1, n - 1, left)
         if b:
             r += (kn[i + n + 1] - x) * b / d2
     return r
 
 def basis_rows(d):
+    """the specification's basis (BSpline.Bfun with BSpline.side_of): right-continuous below knots[nsplines], the upper end of the
+    fully supported range, left-continuous from there upwards (the last knot belongs to the last interval)"""
     kn = [Fr(k) for k in d["knots"]]
     n = nspl_of(d)
-    return [[exact_bspline(kn, Fr(x), j, d["order"]) for j in range(n)] for x in d["coords"]]
+    return [[exact_bspline(kn, Fr(x), j, d["order"], Fr(x) >= kn[n]) for j in range(n)] for x in d["coords"]]
 
 def gen_case(rng, cid, big=False):
     nd = rng.choice([1, 1, 2, 2, 2, 3, 3])
@@ -760,7 +766,7 @@ def run(info, out):
         # ---- coverage
         ok = [c for c in cases if results.get(c["id"], {}).get("status") == "ok"]
         hashes = set(case_hash(c) for c in ok)
-        dist = {"ndim": {}, "order": {}, "porder": {}, "smooth": {}, "kind": {}, "ncoef": {}, "status": {}, "flags": {}, "entries": {}, "max_knot_multiplicity": {}, "illposed_with_repeated_knots": {}}
+        dist = {"ndim": {}, "order": {}, "porder": {}, "smooth": {}, "kind": {}, "ncoef": {}, "status": {}, "flags": {}, "entries": {}, "max_knot_multiplicity": {}, "illposed_with_repeated_knots": {}, "abscissae_at_or_above_upper_end": {}}
         def bump(k, v):
             dist[k][str(v)] = dist[k].get(str(v), 0) + 1
         for c in cases:
@@ -775,6 +781,13 @@ def run(info, out):
             total = 1
             for d in c["dims"]:
                 bump("order", d["order"]); bump("porder", d["porder"]); bump("smooth", d["smooth"]); bump("max_knot_multiplicity", max_mult(d["knots"])); total *= len(d["coords"])
+                knq = [Fr(k) for k in d["knots"]]
+                for x in d["coords"]:
+                    if Fr(x) >= knq[nspl_of(d)] and Fr(x) <= knq[-1]:
+                        # at/above the upper end of full support: the left-continuous side; "row differs" = the row is not what the
+                        # right-continuous basis (the code before fix F30_1) gave: last knot of an order-0 or end-clamped dimension, jumps
+                        changed = any(exact_bspline(knq, Fr(x), j, d["order"], True) != exact_bspline(knq, Fr(x), j, d["order"], False) for j in range(nspl_of(d)))
+                        bump("abscissae_at_or_above_upper_end", ("on a knot" if Fr(x) in knq else "off knots") + (", row differs from the right-continuous basis" if changed else ""))
             ne = len(c["entries"])
             bump("entries", "full" if ne >= total else "sparse")
         conds = sorted(results[c["id"]]["cond"] for c in ok)
@@ -783,7 +796,7 @@ def run(info, out):
             "evaluations": 2 * len(ok),
             "distinct_nontrivial": len(hashes),
             "rule": ("a case is one well-posed fitting problem (exact normal matrix positive definite, decided exactly) with 1..3 dimensions, orders 0..3, penalty orders 0..order, "
-                     "irregular dyadic knots (a fifth of the dimensions of order >= 1 with a run of 2..order+1 repeated knots), up to 8 abscissae per dimension (inside, on knots, in the margins, outside the support), dense or sparse cells, duplicate cells, "
+                     "irregular dyadic knots (a fifth of the dimensions of order >= 1 with a run of 2..order+1 repeated knots), up to 8 abscissae per dimension (inside, on knots, on knots at/above knots[nsplines] and on the last knot, in the margins, outside the support), dense or sparse cells, duplicate cells, "
                      "zero and positive dyadic weights, smoothing in {0, 2^-10, 1, 2^10} (single or per dimension); every case is run through both entry points (C++ fit, C splinetable_glamfit) "
                      "and is followed by a permuted + zero-weight-padded variant; non-trivial = well-posed with at least 2 coefficients; distinct by the full input text"),
             "samples": [case_public(c) for c in ok[:2]],
